@@ -474,10 +474,6 @@ std::string sqf::parser::preprocessor::impl_default::instance::handle_arg(::sqf:
         }
         switch (c)
         {
-            case '"':
-            string_mode = true;
-            sstream << c;
-            break;
             case 'a': case 'b': case 'c': case 'd': case 'e':
             case 'f': case 'g': case 'h': case 'i': case 'j':
             case 'k': case 'l': case 'm': case 'n': case 'o':
@@ -506,11 +502,18 @@ std::string sqf::parser::preprocessor::impl_default::instance::handle_arg(::sqf:
             if (inside_word)
             {
                 inside_word = false;
+                // The delimiter is read again after the word has been handled. Not at the end of the
+                // argument (there is no delimiter) and not for an opening quote (reading it twice would
+                // flip the string state of the reader twice); the quote is handled right here instead.
+                bool reread = !part_of_word && c != '"';
                 auto res = try_get_macro(word);
-                if (res.has_value())
+                if (res.has_value() && res.value().is_callable() && !reread)
+                { // function-like macro that is not followed by '(': stays as it is
+                    sstream << word;
+                }
+                else if (res.has_value())
                 {
-                    // only un-read the delimiter; at the end of the argument there is none
-                    if (res.value().is_callable() && !part_of_word)
+                    if (res.value().is_callable())
                     {
                         local_fileinfo.move_back();
                     }
@@ -520,7 +523,7 @@ std::string sqf::parser::preprocessor::impl_default::instance::handle_arg(::sqf:
                         return "";
                     }
                     sstream << handled;
-                    if (!res.value().is_callable() && !part_of_word)
+                    if (!res.value().is_callable() && reread)
                     {
                         local_fileinfo.move_back();
                     }
@@ -528,7 +531,7 @@ std::string sqf::parser::preprocessor::impl_default::instance::handle_arg(::sqf:
                 else if (param_map.find(word) != param_map.end())
                 {
                     sstream << param_map.at(word);
-                    if (!part_of_word)
+                    if (reread)
                     {
                         local_fileinfo.move_back();
                     }
@@ -536,11 +539,21 @@ std::string sqf::parser::preprocessor::impl_default::instance::handle_arg(::sqf:
                 else
                 {
                     sstream << word;
-                    if (!part_of_word)
+                    if (reread)
                     {
                         local_fileinfo.move_back();
                     }
                 }
+                if (!part_of_word && c == '"')
+                {
+                    string_mode = true;
+                    sstream << c;
+                }
+            }
+            else if (c == '"')
+            {
+                string_mode = true;
+                sstream << c;
             }
             else
             {
